@@ -1015,6 +1015,9 @@ class RZILTransformer(Transformer):
             # This is a compound statement.
             if isinstance(items[0], list) and isinstance(items[1], Effect):
                 return items[0] + [items[1]]
+            if isinstance(items[0], list) and isinstance(items[1], list):
+                # The last item is a nested compound statement.
+                return items[0] + items[1]
             return items[0]
         p: Pure = items[1]
         e: Effect = items[0]
